@@ -9,11 +9,12 @@ def main():
     groups += [dict(pkg='compiler/internal/verifrt/fe', rel='internal/verifrt/fe', harnesses=['HarnessC13Tokens%d' % k], max_paths=100000, wall_timeout=1700) for k in range(8)]
     groups += [dict(pkg='compiler/internal/verifrt/fe', rel='internal/verifrt/fe', harnesses=['HarnessC13Bytes'], max_paths=100000, wall_timeout=1700)]
     groups += [dict(pkg='compiler/internal/codegen/qbe_embeddings', rel='internal/codegen/qbe_embeddings', harnesses=['HarnessC13EmitGate'])]
+    groups += [dict(pkg='compiler/internal/pipeline', rel='internal/pipeline', harnesses=['HarnessC13CodegenFailure'])]
     rc = gocheck.run('C13', 'other', groups, gocheck.GOSYM_ASSUME + [
         'ASCII sources only; the lexer regular expressions are matched by the symbolic backtracking matcher',
         'front-end harnesses: HarnessC13Tokens0-7 delete or replace ONE token of two well-formed programs (every token position x 11 replacement tokens quick / 18 thorough) and run the real lexer, parser, collector, resolver and type checker on the result inside the symbolic interpreter; HarnessC13Bytes replaces one byte (every second position quick / every position thorough) of a short program by a SYMBOLIC ASCII byte (digits excluded); termination is a step bound of 6,000,000 interpreted instructions (about 40x the cost of the unmodified program), replayed natively as a 20 s watchdog',
         'HarnessC13EmitGate: the QBE generator on a hand-built three-function MIR module in which a symbolically chosen function contains an instruction the generator cannot emit: Emit must return an error (so no IL, object file or executable is produced) whenever any function reported one; the wasm generator and the driver code between Emit and the linker are not covered',
-        'HarnessC13Highlight: the snippet colouriser (SyntaxHighlighter.Highlight) on every line of <= 4 (5 thorough) characters over the 10 characters that drive its scanner (enumerated by the engine as concrete choices: an exhaustive finite product, not a solver verdict over an infinite domain): no run-time error, token texts add up to the line', 'NOT decided: inputs more than one token / one byte away from the two base programs, the phases after the type checker, process exit status, left-over artifacts, multi-file projects with missing or malformed imports',
+        'HarnessC13Highlight: the snippet colouriser (SyntaxHighlighter.Highlight) on every line of <= 4 (5 thorough) characters over the 10 characters that drive its scanner (enumerated by the engine as concrete choices: an exhaustive finite product, not a solver verdict over an infinite domain): no run-time error, token texts add up to the line', 'HarnessC13CodegenFailure: the native code generation phase (runQBECodegenPhase, generateModuleQBE, the real QBE emitter) on a one-module project in an environment of stubs - os.MkdirAll, os.WriteFile, the embedded QBE (exit code), the assembler / linker step succeed or fail by free symbolic choice (gosym/interp/envstubs.go): whenever the phase returns an error an error diagnostic has been recorded (the driver computes the exit status from the diagnostics only)', 'NOT decided: inputs more than one token / one byte away from the two base programs, the phases after the type checker, the mapping from diagnostics to the process exit status (compiler.Compile / main), left-over artifacts, multi-file projects with missing or malformed imports',
     ], 'FRONT END: on every one-token mutation of the base programs and on every one-byte mutation of a short program the whole front end comes back within the step bound, does not panic (nil dereference, failed type assertion, index out of range are violations) and every diagnostic points inside the file. BOUNDED SLICE: (a) lexer.Tokenize on every ASCII source of up to 2 bytes (3 thorough): terminates within the step budget without a panic, the token list ends with EOF, token spans lie inside the input in order; (b) the diagnostic builder and sorter (WithPrimaryLabel, WithSecondaryLabel, sortDiagnostics, HasErrors) with the nil-ness of each location and of its file name symbolic: no panic, HasErrors <=> an error was added.')
     sys.exit(rc)
 
